@@ -352,6 +352,7 @@ func (s *c02State) checkTranscoder() {
 }
 
 func runC02(c *Ctx) {
+	c.everyEntryIsSanitised()
 	c.rule("X1", "every path argument of a mutating filesystem call in the extraction call graph belongs to D (derived from the sanitiser's accepted result or the caller's cleaned destination)", 6)
 	c.rule("X2", "every accepting return of sanitiseZipExtractPath is on the true side of a containment predicate over filepath.Join(destination, name) and returns that joined path; a directory derived from the stem of an accepted path cannot be a parent reference", 2)
 	c.rule("X4", "the transcoder of non-UTF-8 names keeps a sanitised path in its directory: it returns its argument, or Join(directory of the argument, converted name) where the converted name was found to be a single path element (equal to its own filepath.Base, not \"..\")", 1)
